@@ -93,7 +93,7 @@ func runR044(c *core.Ctx) {
 					if isResourceCallback(inf, call, reqCtx, handlerT) {
 						after = 1
 					}
-					if f := core.Callee(inf, call); f != nil && f.Name() == "PreRequest" {
+					if f := core.Callee(inf, call); f != nil && core.NameOf(f) == "PreRequest" {
 						if sgn, ok := f.Type().(*types.Signature); ok && sgn.Recv() != nil {
 							if nt, ok := sgn.Recv().Type().(*types.Named); ok && nt.Obj() == filterT {
 								after = 1
